@@ -32,7 +32,7 @@ ASSUMPTIONS = ["pvm/ref/ofmatch.py states OpenFlow 1.0 matching correctly",
 REQUIRED = ["single_cases", "single_match", "single_nomatch", "tables",
             "table_hits", "table_misses", "exact_entries_hit", "vlan_frames",
             "llc_frames", "arp_frames", "frag_frames", "prefix_matches",
-            "sibling_frames_matched", "tables_read_between_install_and_lookup",
+            "sibling_frames_matched", "tables_read_between_install_and_lookup", "packet_objects_rewritten_between_two_lookups",
             "probes_that_are_answers_or_neighbours_of_an_earlier_one"]
 TIMEOUT = {"quick": 900, "thorough": 7200}
 
@@ -124,10 +124,11 @@ def count_frame (rep, desc, f):
   if desc["kind"].startswith("frag"): rep.count("frag_frames")
 
 
-def observe (sw, raw, in_port):
+def observe (sw, raw, in_port, obj=None):
   """Returns ('out', [ports]) or ('miss', n_packet_in) or ('none',)."""
   sw.take_out(); sw.take_bytes()
-  sw.inject(in_port, raw)
+  if obj is not None: sw.switch.rx_packet(obj, in_port, raw)
+  else: sw.inject(in_port, raw)
   out = sw.take_out()
   ctl = sw.take_bytes()
   pins = 0
@@ -294,10 +295,32 @@ def run_table (case, rep):
     fire("flow_mod rejected", err[:40].hex()); return
   rep.count("tables")
   nt = False
-  for pi, probe in enumerate(case["probes"]):
+  queue = [dict(p_) for p_ in case["probes"]]
+  pi = -1
+  while queue:
+    probe = queue.pop(0); pi += 1
     if case.get("asked") and pi % 2 == 0:
       if not ask(sw, rep, fire): return
     raw = probe["frame"]; in_port = probe["in_port"]
+    if case.get("relay") and pi < 4 and "obj" not in probe:
+      # the frame comes from a software switch in the same process, which
+      # hands the packet *object* on: looked up here once, then rewritten in
+      # place by that switch's next action (another destination address) and
+      # handed over again on the same port.  The second lookup is by the
+      # headers the object has then.
+      try:
+        import pox.lib.packet as pkt
+        from pox.lib.addresses import EthAddr
+        po = pkt.ethernet(raw)
+        others = [q_["frame"][0:6] for q_ in case["probes"] if q_["frame"][0:6] != raw[0:6]]
+        if po.pack() == raw and others:
+          sw.take_out(); sw.take_bytes()
+          sw.switch.rx_packet(po, in_port, raw)
+          po.dst = EthAddr(others[pi % len(others)])
+          queue.insert(0, dict(frame=po.pack(), in_port=in_port, obj=po))
+          rep.count("packet_objects_rewritten_between_two_lookups")
+      except Exception:
+        fire("frame processing raises", traceback.format_exc()[-700:]); return
     if probe.get("relative"): rep.count("probes_that_are_answers_or_neighbours_of_an_earlier_one")
     f = OM.extract(raw, in_port)
     matching = [i for i, e in enumerate(entries) if i not in removed
@@ -323,7 +346,7 @@ def run_table (case, rep):
     if maybe:
       winners = sorted(set(winners) | set(best(exact + maybe)) | set(best(maybe)))
     try:
-      out, pins = observe(sw, raw, in_port)
+      out, pins = observe(sw, raw, in_port, probe.get("obj"))
     except Exception:
       fire("frame processing raises", traceback.format_exc()[-700:]); return
     ports = [p for p, _ in out]
@@ -447,6 +470,7 @@ def gen_table (rng, n, maxn):
     # the controller looks at the table (statistics, a barrier) between
     # installing and the traffic, and between frames: reading changes nothing
     if rng.random() < 0.35: case["asked"] = True
+    if rng.random() < 0.3: case["relay"] = True
     yield case
 
 
